@@ -361,14 +361,21 @@ namespace cds { namespace gc {
             void extend()
             {
                 assert( list_head_ != nullptr );
-                assert( current_block_ == list_tail_ );
-                assert( current_cell_ == current_block_->last());
+                assert( current_block_ != nullptr );
 
                 retired_block* block = retired_allocator::instance().alloc();
                 assert( block->next_ == nullptr );
 
-                current_block_ = list_tail_ = list_tail_->next_ = block;
-                current_cell_ = block->first();
+                if ( current_cell_ == current_block_->last()) {
+                    // the array is completely full: continue in the new block
+                    assert( current_block_ == list_tail_ );
+                    current_block_ = block;
+                    current_cell_ = block->first();
+                }
+                // otherwise scan() has compacted the array: the cells behind current_cell_
+                // hold stale copies of already freed pointers and must stay behind it
+
+                list_tail_ = list_tail_->next_ = block;
                 ++block_count_;
                 CDS_HPSTAT( ++extend_call_count_ );
             }
